@@ -151,7 +151,7 @@ struct SphericalTransform
 template<typename Scalar>
 SphericalCoordinates<Scalar> toSpherical(const CartesianCoordinates3<Scalar> & point)
 {
-  double range = SphericalTransform::range(point);
+  Scalar range = SphericalTransform::range(point);
 
   return SphericalCoordinates<Scalar>(
     range,
@@ -163,7 +163,7 @@ SphericalCoordinates<Scalar> toSpherical(const CartesianCoordinates3<Scalar> & p
 template<typename Scalar>
 SphericalCoordinates<Scalar> toSpherical(const HomogeneousCoordinates3<Scalar> & point)
 {
-  double range = SphericalTransform::range(point);
+  Scalar range = SphericalTransform::range(point);
 
   return SphericalCoordinates<Scalar>(
     range,
